@@ -49,6 +49,14 @@ def build_jobs(tier, seed):
                                             allowed='sym'), split_depth=10))
             jobs.append(J(H['detect-file'], dict(P, magic=m, overlays='all'),
                           split_depth=8))
+        # arbitrary bytes at one group of signature positions at a time
+        for cells in ([0, 1, 2, 3], [0x40, 0x41, 0x42, 0x43],
+                      [0x10, 0x15, 510, 511],
+                      [32768, 32769, 32770, 32771, 32772, 32773]):
+            jobs.append(J(H['detect'], dict(P, magic='none', read=4096,
+                                            overlays='single',
+                                            sym_cells=cells, nmin=33000),
+                          split_depth=10))
         jobs.append(J(H['detect'], dict(P, magic='vhdx', regi=True,
                                         read=65536, nmin=200 * 1024,
                                         nmax=300 * 1024, overlays='single'),
@@ -68,9 +76,12 @@ def describe(tier):
         '1..65536 with at most 4 non-empty reads), allowed_formats = all, or a symbolic subset over '
         '{raw, the offset-0 format, gpt, iso}',
         'no-revision': 'format sampled after every read',
-        'outside': 'arbitrary bytes at the signature positions (the '
-        'per-inspector harnesses of C01/C02 cover those with every byte '
-        'symbolic); VMDK text-descriptor mode (known finding F1)',
+        'thorough': 'additionally arbitrary (symbolic) bytes at one group '
+        'of signature positions at a time: offset 0-3, the VDI magic, the '
+        'MBR signature + FAT bytes, the ISO descriptor',
+        'outside': 'arbitrary bytes at all signature positions at once (the '
+        'per-inspector harnesses of C01/C02 cover every byte symbolic per '
+        'format); VMDK text-descriptor mode (known finding F1)',
     }
 
 
